@@ -18,7 +18,8 @@ enum Op {
 fn mk_checkpoint(k: u64) -> Checkpoint {
     let mut metadata = HashMap::new();
     metadata.insert("k".to_string(), k.to_string());
-    metadata.insert("pad".to_string(), "x".repeat(40 + (k as usize * 7) % 60));
+    // sizes go up and down from one checkpoint to the next (a later checkpoint is often shorter than an earlier one)
+    metadata.insert("pad".to_string(), "x".repeat(10 + (k as usize * 89) % 240));
     Checkpoint {
         id: 0,
         timestamp_ms: 0,
@@ -250,7 +251,10 @@ fn exec(ops: &[Op], cfg_max: usize, faults: BTreeMap<u64, (FaultKind, u64)>, tag
                 let p = dir.join("checkpoint");
                 let _ = std::fs::create_dir_all(&p);
                 let n = sim.max_id_seen + 1;
-                let _ = std::fs::write(p.join(format!("{}.tmp", n)), b"garbage-from-an-earlier-crash");
+                // what a crash between the temp-file write and the rename leaves behind: sometimes short, sometimes
+                // longer than the checkpoint that will reuse the name
+                let junk: Vec<u8> = if n % 2 == 0 { b"garbage-from-an-earlier-crash".to_vec() } else { b"leftover-of-an-interrupted-larger-checkpoint ".repeat(40) };
+                let _ = std::fs::write(p.join(format!("{}.tmp", n)), junk);
                 sim.rep.fault("stray-tmp-file");
                 sim.rep.log(format!("stray temp file {}.tmp", n));
             }
